@@ -229,7 +229,48 @@ carry the same stamp. -/
 theorem C15_backup_name_free (fs : FS) (stamp : String) : get fs (backupName fs stamp) = none :=
   backupName_free fs stamp
 
-/-! ## non-vacuity, regressions for the three repaired defects -/
+/-- **C15 (torn write, what the atomicity assumption buys).**  The theorems above take one
+`write(2)` as atomic.  If instead the kernel cuts the write that is executing at a crash point
+short inside a line `l` of its payload (`a` = the complete lines before it): a write to
+`results.csv.tmp` leaves `results.csv` untouched (first dump and Pareto rewrite are immune); an
+append to `results.csv` leaves the earlier content, the complete lines and ONE incomplete last line
+of a job that had finished — everything but the last line is still a well-formed, truthful table
+holding every row whose dump had returned. -/
+theorem C15_torn_write (s₀ : St) (h₀ : Vis s₀) (runs : List Run) (hok : RunsOK s₀ runs)
+    (p q : List Ev) (n : Name) (c : List Line)
+    (hT : searchFiles fixed s₀ runs = p ++ .sys (.write n c) :: q)
+    (a : List Line) (l : Line) (b : List Line) (hc : c = a ++ l :: b) :
+    let s := execAll s₀ p
+    let s' := exec s (.sys (.write n (tornPayload a l)))
+    (n = .tmp ∧ get s'.fs .results = get s.fs .results) ∨
+    (n = .results ∧ ∃ c0 j, l = .row j false ∧ j ∈ s.done ∧
+      get s'.fs .results = some ((c0 ++ a) ++ [.torn j]) ∧ WellFormed (c0 ++ a) ∧
+      (∀ j ∈ jobsOf (c0 ++ a), j ∈ s.done) ∧ (∀ j ∈ s.dumped, j ∈ jobsOf (c0 ++ a))) := by
+  obtain ⟨pend, hi⟩ := hist_inv runs s₀ h₀ hok p _ q hT
+  rcases torn_write hi a l b hc with h | ⟨hn, c0, j, h1, h2, h3, h4, h5, h6⟩
+  · exact .inl h
+  · exact .inr ⟨hn, c0, j, h1, h2, h3, (wellFormed_iff _).1 h4, h5, h6⟩
+
+/-- the loader model lets such a file through (pandas fills the missing cells of a short line with
+NaN, or reads a truncated number): the torn row is loaded although it is not a row of the search -/
+theorem C15_torn_row_is_loaded (c : Content) (j : Job) (h : WellFormed c) :
+    reload (c ++ [.torn j]) = .ok (jobsOf c ++ [j]) := by
+  obtain ⟨e, rows, rfl, hne, hr⟩ := h
+  have hload : ∀ rows : List Line, (∀ l ∈ rows, ∃ j e', l = Line.row j e' ∧ (e' = true → e = true)) →
+      loadRows e (rows ++ [.torn j]) = .ok (jobsOf rows ++ [j]) := by
+    intro rows hr
+    induction rows with
+    | nil => simp [loadRows, jobsOf]
+    | cons l rows ih =>
+      obtain ⟨j', e', rfl, he⟩ := hr l (by simp)
+      have ih' := ih (fun l hl => hr l (List.mem_cons_of_mem _ hl))
+      simp only [List.cons_append, loadRows, jobsOf, ih']
+      cases e' <;> cases e <;> simp_all
+  cases rows with
+  | nil => exact absurd rfl hne
+  | cons l rows => simpa [reload, jobsOf] using hload (l :: rows) hr
+
+/-! ## non-vacuity, regressions for the repaired defects -/
 
 section examples
 
@@ -304,6 +345,24 @@ example :
     (get s.fs .results).map jobsOf = some [k0] ∧
       (get s.fs (.backup "t" 0)).map jobsOf = some [j0, j1, j2] := by
   decide +kernel
+
+/-- the evaluator of an earlier search (it has dumped: `started = true`) is given to a new search whose
+directory is empty -/
+def reusedEvaluator : St := { emptyDir with started := true }
+def reuseActs : List Act := [.recreate "t", .finish k0, .dump [k0] [] "t"]
+
+/-- 10e (before the fix): the new search appends without a header … -/
+example :
+    get (execAll reusedEvaluator (trace { fixed with resetAlways := false } reusedEvaluator reuseActs)).fs
+      .results = some [.row k0 false] := by decide +kernel
+/-- … with the fix it starts its file with the header -/
+example :
+    get (execAll reusedEvaluator (trace fixed reusedEvaluator reuseActs)).fs .results
+      = some [.header false, .row k0 false] := by decide +kernel
+
+/-- a torn append: the checker for "good table + one incomplete last line of a finished job" -/
+example : tornLastOnly [.header false, .row j0 false, .torn j1] [j0, j1] [j0] = true := by decide
+example : tornLastOnly [.header false, .torn j1] [j0, j1] [] = false := by decide
 
 example : wellFormedPrefix [.header true, .row j0 true, .row j1 false] [j0, j1, j2] [j0] = true := by
   decide
